@@ -217,6 +217,33 @@ pub fn felt_sub(a: u32, b: u32) -> u32 {
 pub fn felt_neg(a: u32) -> u32 {
     (-Felt::verif_from_raw(a)).verif_raw()
 }
+/// the compound-assignment forms and the conversion from usize (they have implementations of their own)
+pub fn felt_assign(op: u8, a: u32, b: u32) -> u32 {
+    let mut x = Felt::verif_from_raw(a);
+    let y = Felt::verif_from_raw(b);
+    match op {
+        b'+' => x += y,
+        b'-' => x -= y,
+        _ => x *= y,
+    }
+    x.verif_raw()
+}
+pub fn felt_from_usize(v: usize) -> u32 {
+    Felt::from(v).verif_raw()
+}
+pub fn u32f_assign(op: u8, a: u32, b: u32) -> u32 {
+    let mut x = U32Field(a);
+    let y = U32Field(b);
+    match op {
+        b'+' => x += y,
+        b'-' => x -= y,
+        _ => x *= y,
+    }
+    x.0
+}
+pub fn u32f_div(a: u32, b: u32) -> u32 {
+    (U32Field(a) / U32Field(b)).0
+}
 pub fn felt_mul(a: u32, b: u32) -> u32 {
     (Felt::verif_from_raw(a) * Felt::verif_from_raw(b)).verif_raw()
 }
